@@ -183,7 +183,7 @@ fn prune_witness_values<J: Jet>(node: &WitnessNode<J>) -> Arc<WitnessNode<J>> {
                     .target
                     .finalize()
                     .ok()
-                    .and_then(|ty| value.prune(&ty))
+                    .and_then(|ty| prune_value(value, &ty))
                     .unwrap_or_else(|| value.shallow_clone())
             });
             Ok(pruned)
@@ -220,6 +220,46 @@ fn prune_witness_values<J: Jet>(node: &WitnessNode<J>) -> Arc<WitnessNode<J>> {
         inference_context: types::Context::new(),
     };
     node.convert::<InternalSharing, _, _>(&mut pruner).unwrap()
+}
+
+/// Prune `value` to the type `pruned_ty`:
+/// every part of the value that corresponds to the unit type in `pruned_ty` is replaced by unit.
+///
+/// The pruned value is rebuilt from its bit encoding and shares no memory with `value`.
+/// [`simplicity::Value::prune`] cannot be used here:
+/// it reuses the memory of unchanged parts of `value`, and a left value that is built around
+/// such a part takes over a stray bit as its tag (a nested sum such as `Left(Right(false))`
+/// of type `Either<Either<u2, bool>, u8>` pruned to `Either<Either<(), bool>, ()>` became a right value).
+fn prune_value(value: &simplicity::Value, pruned_ty: &types::Final) -> Option<simplicity::Value> {
+    use simplicity::types::CompleteBound;
+
+    let mut bits = Vec::new();
+    let mut stack = vec![(value.as_ref(), pruned_ty)];
+    while let Some((value, ty)) = stack.pop() {
+        match ty.bound() {
+            CompleteBound::Unit => {}
+            CompleteBound::Sum(l_ty, r_ty) => {
+                if let Some(l_value) = value.as_left() {
+                    bits.push(false);
+                    stack.push((l_value, l_ty));
+                } else {
+                    bits.push(true);
+                    stack.push((value.as_right()?, r_ty));
+                }
+            }
+            CompleteBound::Product(l_ty, r_ty) => {
+                let (l_value, r_value) = value.as_product()?;
+                stack.push((r_value, r_ty));
+                stack.push((l_value, l_ty));
+            }
+        }
+    }
+
+    let mut bytes = vec![0u8; bits.len().div_ceil(8)];
+    for (i, _) in bits.iter().enumerate().filter(|(_, bit)| **bit) {
+        bytes[i / 8] |= 1 << (7 - i % 8);
+    }
+    simplicity::Value::from_compact_bits(&mut simplicity::BitIter::from(bytes), pruned_ty).ok()
 }
 
 /// Copy of [`node::ConstructData`] with an implementation of [`WitnessConstructible<WitnessName>`].
